@@ -113,6 +113,9 @@ class Report:
             lines.append("note: listed finding not observed any more (repaired?): rule=%s construct=%s" % (k["rule"], k["construct"]))
 
         os.makedirs(os.path.join(EVID, "replay"), exist_ok=True)
+        for fn in os.listdir(os.path.join(EVID, "replay")):
+            if fn.startswith(self.pid + "-"):
+                os.unlink(os.path.join(EVID, "replay", fn))      # stale reports of earlier runs
         for o in viol_unlisted:
             h = hashlib.sha1(("%s|%s|%s|%s" % (self.pid, o["rule"], o["construct"], o["config"])).encode()).hexdigest()[:10]
             path = os.path.join(EVID, "replay", "%s-%s-%s.json" % (self.pid, o["rule"].split(".")[-1], h))
